@@ -61,3 +61,12 @@ Theorem C02_arch_steps_are_the_model : forall tab i,
   src_arch_arch tab i (gs i "arch") = translate_arch tab (gs i "archlinux.arch") (gs i "arch").
 Proof. intros tab i. repeat split; reflexivity. Qed.
 Print Assumptions C02_arch_steps_are_the_model.
+
+(* ---- deb.createTriggers, translated from deb/deb.go on every run (Gen/TriggersFn.v) ---- *)
+From NfpmV Require Import Gen.TriggersFn.
+(* for all settings: the triggers member the SOURCE writes - its table of directives in its order, each with the list of
+   names it points to (yaml keys from the struct tags), one "directive name" line per name - is the model's deb_triggers *)
+Theorem C02_deb_triggers_source_is_the_model :
+  src_deb_triggers_translated = true /\ forall i, src_deb_triggers i = deb_triggers i.
+Proof. split; [reflexivity | intros i; reflexivity]. Qed.
+Print Assumptions C02_deb_triggers_source_is_the_model.
